@@ -218,8 +218,17 @@ func TakeSnapshot(d Doer, o SnapOpts) (Snapshot, error) {
 						sort.Strings(names)
 						s[base+"fields"] = fmt.Sprintf("%d:%s", r2.Code, strings.Join(names, ","))
 					}
-					if _, err := g("query?show=all", []byte(`{"bodyid":"exists/1"}`)); err != nil {
-						return nil, err
+					{
+						// a query answer is a list too: content as a set, order separately
+						r2, err := d.Do("GET", base+"query?show=all", []byte(`{"bodyid":"exists/1"}`))
+						if err != nil {
+							return nil, err
+						}
+						if r2.IsPanic() && o.Panics != nil {
+							*o.Panics = append(*o.Panics, "GET "+base+"query?show=all: "+string(r2.Body))
+						}
+						s[base+"query?show=all#order"] = digest(r2)
+						s[base+"query?show=all"] = fmt.Sprintf("%d:%s", r2.Code, canonList(r2.Body))
 					}
 				case "roi":
 					if _, err := g("roi", nil); err != nil {
